@@ -7,7 +7,7 @@ def run(ses):
     for unit in ("leader", "volume", "trailer"):
         records.check_unit(ses, unit, ["framing"])
     # low-resolution image i = data[sum(len_<i) : +len_i]: the windows are part of the trailer's record contract
-    records.check_unit(ses, "trailer", ["table"])
+    records.check_unit(ses, "trailer", ["table", "frame"])
     ses.trust(*TRUST[:4])
     ses.assume("admissible inputs: attitude 1 <= N, 16+120N <= L; 1..16 channels; facility 1-4 L >= 66; map projection "
                "count 0/1; file-pointer count >= 0; low-resolution image count 0..7 (the property's quantifier)",
